@@ -184,6 +184,11 @@ def amountPanics (m : M) (start t : Int) : Bool :=
     | none => true
   | _ => false
 
+/-- Go's `time.Time.Sub` saturates at the largest / smallest `time.Duration` (about ±292 years) -/
+def satDur (x : Int) : Int :=
+  if x > 9223372036854775807 then 9223372036854775807
+  else if x < -9223372036854775808 then -9223372036854775808 else x
+
 /-- `Minter.CalculateInflation` (Dec) -/
 def inflation (m : M) (supply start t : Int) : Outcome Int :=
   if start > t then .ok 0 else
@@ -194,8 +199,9 @@ def inflation (m : M) (supply start t : Int) : Outcome Int :=
     match m.endT with
     | none => .panic
     | some e =>
-      if e - start = 0 then .panic else
-      .ok (Dec.quoInt (Dec.quoInt (Dec.mulInt (Dec.ofInt a) year) (e - start)) supply)
+      -- `periodDuration := endTime.Sub(minterStart)`
+      if satDur (e - start) = 0 then .panic else
+      .ok (Dec.quoInt (Dec.quoInt (Dec.mulInt (Dec.ofInt a) year) (satDur (e - start))) supply)
   | .exp a step mult =>
     if supply ≤ 0 then .ok 0 else
     if (match m.endT with | some e => decide (t ≥ e) | none => false) then .ok 0 else
